@@ -44,6 +44,7 @@ type worker struct {
 	curOp  *Op
 	opIdx  int // index of the next op not yet started (valid when parked at "before")
 	atOp   bool
+	quiet  int // > 0: yield points are passed without parking (result post-processing after the library call returned)
 }
 
 type event struct {
@@ -78,10 +79,42 @@ type Sched struct {
 	Yields   int
 	Contend  int // decisions at which a guarded op was not enabled (lock contention observed)
 	running  bool
+	opEnded  bool // some call has ended since the last look at eagerly started, blocked calls
 	tick     *time.Ticker
 	Trace    []string
 	wg       sync.WaitGroup
 }
+
+// Quiet runs f on the calling worker with its yield points switched off. Used for the harness's own post-processing of
+// a call's result (fingerprinting through instrumented library functions): the object's mutex is released by then, and
+// scheduling decisions between that release and the end of the op would depend on when a woken waiter gets the processor.
+//
+//go:norace
+func (s *Sched) Quiet(f func()) {
+	var w *worker
+	if s != nil && s.running {
+		raceDisable()
+		g := curGID()
+		for _, x := range s.workers {
+			if x.gid == g {
+				w = x
+			}
+		}
+		if w != nil {
+			w.quiet++
+		}
+		raceEnable()
+	}
+	f()
+	if w != nil {
+		raceDisable()
+		w.quiet--
+		raceEnable()
+	}
+}
+
+// TraceLimit: number of trace entries kept (diagnostics).
+var TraceLimit = 40
 
 func New(rng *core.Rng, plan []int) *Sched {
 	return &Sched{events: make(chan event, 64), rng: rng, Plan: plan, KeepBias: 950}
@@ -144,14 +177,19 @@ func (s *Sched) Yield(site string) {
 	w := s.cur
 	if w == nil || w.gid != curGID() {
 		// a goroutine that is not the released worker (e.g. a blocked worker that just woke up)
+		w = nil
+		g := curGID()
 		for _, x := range s.workers {
-			if x.gid == curGID() {
+			if x.gid == g {
 				w = x
 			}
 		}
 		if w == nil {
 			return
 		}
+	}
+	if w.quiet > 0 {
+		return
 	}
 	s.events <- event{w, "park", site}
 	<-w.resume
@@ -274,28 +312,54 @@ func (s *Sched) Run() {
 	s.cur = nil
 	step := 0
 	for {
+		// events of workers that parked by themselves (a blocked call that woke up reaches its next yield point on its own)
+		for drained := false; !drained; {
+			select {
+			case ev := <-s.events:
+				s.note(ev)
+			default:
+				drained = true
+			}
+		}
+		// Eagerly started calls blocked on their object's mutex. That mutex is held for a whole call, so it can only have
+		// been released where some call ended; there (and only there) the stacks are inspected until the situation is
+		// stable: a waiter that got the mutex runs to its next yield point and is awaited; if the mutex is free and a
+		// waiter is still shown as blocked, the runtime has not scheduled it yet and we wait for it. This makes the
+		// hand-over independent of the machine's timing.
+		if s.opEnded {
+			s.opEnded = false
+			deadline := time.Now().Add(3 * time.Second)
+			for {
+				progressed, waiters, free := false, 0, false
+				for _, w := range s.workers {
+					if w.state != 3 || w.curOp == nil || !w.curOp.Eager || w.curOp.Guard == nil {
+						continue
+					}
+					if !blockedInLibrary(w) {
+						s.trace("woke-eager:" + strconv.Itoa(w.id))
+						w.state = 1
+						s.await(w)
+						progressed = true
+						continue
+					}
+					waiters++
+					if w.curOp.Guard() {
+						free = true
+					}
+				}
+				if progressed {
+					continue
+				}
+				if waiters == 0 || !free || time.Now().After(deadline) {
+					break
+				}
+				time.Sleep(200 * time.Microsecond)
+			}
+		}
 		// wake-ups of previously blocked workers
 		for _, w := range s.workers {
 			if w.state == 3 && w.curOp != nil && w.curOp.Eager && w.curOp.Guard != nil {
-				// eagerly started call blocked on the object's mutex: it proceeds exactly when that mutex is free at a
-				// scheduling point (everybody else is parked now, so it is the only taker)
-				if !w.curOp.Guard() {
-					// mutex still taken: the call cannot have moved (inspecting all stacks at every step of a long read
-					// made such schedules ten times slower); a full look every 512 steps as a safety net
-					if step%512 != 0 || blockedInLibrary(w) {
-						continue
-					}
-				}
-				for i := 0; i < 25000 && blockedInLibrary(w); i++ {
-					time.Sleep(200 * time.Microsecond)
-				}
-				if blockedInLibrary(w) {
-					continue
-				}
-				s.trace("woke-eager:" + strconv.Itoa(w.id))
-				w.state = 1
-				s.await(w)
-				continue
+				continue // handled below, at the points where the object's mutex can have been released
 			}
 			if w.state == 3 && !blockedInLibrary(w) {
 				s.trace("woke:" + strconv.Itoa(w.id))
@@ -400,13 +464,7 @@ func (s *Sched) await(w *worker) {
 		select {
 		case ev := <-s.events:
 			s.trace("ev:" + strconv.Itoa(ev.w.id) + ":" + ev.kind + ":" + ev.site + "(await " + strconv.Itoa(w.id) + ")")
-			if ev.kind == "done" {
-				ev.w.state = 2
-			} else {
-				ev.w.state = 0
-				ev.w.site = ev.site
-				s.Yields++
-			}
+			s.note(ev)
 			if ev.w == w {
 				return
 			}
@@ -418,6 +476,21 @@ func (s *Sched) await(w *worker) {
 				return
 			}
 		}
+	}
+}
+
+// note records a park / done event of a worker.
+func (s *Sched) note(ev event) {
+	if ev.kind == "done" {
+		ev.w.state = 2
+		s.opEnded = true
+		return
+	}
+	ev.w.state = 0
+	ev.w.site = ev.site
+	s.Yields++
+	if strings.HasPrefix(ev.site, "before:") {
+		s.opEnded = true // the previous call of that worker has returned (or it is its first call)
 	}
 }
 
@@ -495,7 +568,7 @@ func And(gs ...func() bool) func() bool {
 
 func (s *Sched) trace(x string) {
 	s.Trace = append(s.Trace, x)
-	if len(s.Trace) > 40 {
-		s.Trace = s.Trace[len(s.Trace)-40:]
+	if len(s.Trace) > TraceLimit {
+		s.Trace = s.Trace[len(s.Trace)-TraceLimit:]
 	}
 }
